@@ -35,7 +35,7 @@ Proof.
     intros E. injection E as _ <-.
     apply take_spec in T1. apply take_spec in T2. destruct T1 as [-> _], T2 as [-> _].
     exists (op :: h ++ p). split; [cbn; rewrite <- app_assoc; reflexivity|cbn; lia]. }
-  destruct ((op =? log_drop_table) || (op =? log_drop_ref_count_table)); [|discriminate].
+  destruct ((op =? log_drop_table) || (op =? log_drop_ref_count_table)); [|destruct (op =? log_begin_record); discriminate].
   destruct (take 2 b) as [[h r1]|] eqn:T1; [|discriminate].
   intros E. injection E as _ <-. apply take_spec in T1. destruct T1 as [-> _].
   exists (op :: h). split; [reflexivity|cbn; lia].
@@ -54,7 +54,7 @@ Proof.
     { destruct (take 10 b) as [[h r1]|]; [|discriminate]. destruct (ncols <=? _); [discriminate|].
       destruct (_ && _); [discriminate|]. destruct (_ && _); [discriminate|].
       destruct (value_len _ _ _) as [n|]; [|discriminate]. destruct (take n r1) as [[p r2]|]; discriminate. }
-    destruct (_ || _); [|discriminate]. destruct (take 2 b) as [[h r1]|]; discriminate.
+    destruct (_ || _); [|destruct (op =? log_begin_record); discriminate]. destruct (take 2 b) as [[h r1]|]; discriminate.
 Qed.
 
 Lemma parse_actions_ok ncols fuel : forall b acc acts r,
@@ -77,7 +77,7 @@ Theorem parse_record_spec ncols b id acts len : parse_record ncols b = PRecord i
     unle (firstn 4 (skipn blen b)) = crc32 (firstn blen b).
 Proof.
   unfold parse_record. destruct b as [|op b]; [discriminate|].
-  destruct (N.eqb_spec op log_begin_record) as [->|]; cbn [negb]; [|discriminate].
+  destruct (N.eqb_spec op log_begin_record) as [->|]; cbn [negb]; [|intros Hbad; repeat match type of Hbad with context [if ?c then _ else _] => destruct c end; discriminate].
   destruct (take 8 b) as [[idb r1]|] eqn:T1; [|discriminate].
   destruct (parse_actions ncols (S (length r1)) r1 []) as [[[a r2]|]|] eqn:PA; try discriminate.
   destruct (take 4 r2) as [[c r3]|] eqn:T2; [|discriminate].
@@ -110,9 +110,10 @@ Proof.
 Qed.
 
 (* ---- the file scanner: an independent description, and the fuel is enough ---- *)
-Inductive frecs (ncols : N) : bytes -> list (N * list action) -> bool -> Prop :=
-| fr_eof b : parse_record ncols b = PEof -> frecs ncols b [] false
-| fr_bad b : parse_record ncols b = PInvalid -> frecs ncols b [] true
+Inductive frecs (ncols : N) : bytes -> list (N * list action) -> fend -> Prop :=
+| fr_eof b : parse_record ncols b = PEof -> frecs ncols b [] FEof
+| fr_bad b : parse_record ncols b = PInvalid -> frecs ncols b [] FBad
+| fr_cut b id : parse_record ncols b = PCut id -> frecs ncols b [] (FCut id)
 | fr_rec b id acts len rs bad : parse_record ncols b = PRecord id acts len ->
     frecs ncols (skipn len b) rs bad -> frecs ncols b ((id, acts) :: rs) bad.
 
@@ -120,7 +121,7 @@ Lemma file_records_spec ncols fuel : forall b, (length b < fuel)%nat ->
   frecs ncols b (fst (file_records ncols fuel b)) (snd (file_records ncols fuel b)).
 Proof.
   induction fuel as [|f IH]; intros b Hf; [lia|]. cbn [file_records].
-  destruct (parse_record ncols b) as [id acts len| |] eqn:E.
+  destruct (parse_record ncols b) as [id acts len| | |id] eqn:E.
   - destruct (file_records ncols f (skipn len b)) as [rs bad] eqn:F. cbn [fst snd].
     eapply fr_rec; [exact E|].
     assert (Hs : (length (skipn len b) < f)%nat).
@@ -128,6 +129,7 @@ Proof.
     specialize (IH _ Hs). rewrite F in IH. exact IH.
   - apply fr_eof. exact E.
   - apply fr_bad. exact E.
+  - apply fr_cut. exact E.
 Qed.
 
 (* ---- the replay over arbitrary files ---- *)
@@ -163,10 +165,10 @@ Qed.
 
 (* the records a replay may look at: every file up to and including the first one that ends in an
    invalid record *)
-Fixpoint upto_bad (files : list (list (N * list action) * bool)) : list (N * list action) :=
+Fixpoint upto_bad (files : list (list (N * list action) * fend)) : list (N * list action) :=
   match files with
   | [] => []
-  | (rs, bad) :: rest => if bad then rs else rs ++ upto_bad rest
+  | (rs, t) :: rest => match t with FBad => rs | _ => rs ++ upto_bad rest end
   end.
 
 Lemma firstn_prefix_app {A} n (a b : list A) : exists m, firstn n a = firstn m (a ++ b).
@@ -181,28 +183,40 @@ Qed.
 Theorem replay_files_spec files : forall e,
   consec e (replay_files files e) /\ exists n, replay_files files e = firstn n (map fst (upto_bad files)).
 Proof.
-  induction files as [|[rs bad] rest IH]; intros e; cbn [replay_files upto_bad].
+  induction files as [|[rs t] rest IH]; intros e; cbn [replay_files upto_bad].
   - split; [exact I|exists O; reflexivity].
   - destruct (replay_recs rs e) as [l o] eqn:R. destruct (replay_recs_spec _ _ _ _ R) as [Hc [[n Hn] Ho]].
+    assert (Hpre : forall k, exists m, firstn k (map fst rs) = firstn m (map fst (match t with FBad => rs | _ => rs ++ upto_bad rest end))).
+    { intros k. destruct t; try (rewrite map_app; apply firstn_prefix_app). exists k; reflexivity. }
     destruct o as [e'|].
-    + destruct Ho as [Hl He]. destruct bad.
-      * split; [exact Hc|]. exists (length rs). rewrite Hl. rewrite firstn_all2 by (rewrite map_length; lia). reflexivity.
+    + destruct Ho as [Hl He]. destruct (goes_on t e') eqn:G.
       * destruct (IH e') as [Hc' [m Hm]]. split.
         { eapply consec_app; [exact Hc|exact He|exact Hc']. }
-        exists (length rs + m)%nat. rewrite map_app, firstn_app, map_length.
-        rewrite firstn_all2 by (rewrite map_length; lia).
-        replace (length rs + m - length rs)%nat with m by lia. rewrite Hl, Hm. reflexivity.
-    + split; [exact Hc|]. rewrite Hn. destruct bad; [exists n; reflexivity|].
-      rewrite map_app. apply firstn_prefix_app.
+        assert (Hm2 : l ++ replay_files rest e' = firstn (length rs + m) (map fst (rs ++ upto_bad rest))).
+        { rewrite map_app, firstn_app, map_length.
+          rewrite firstn_all2 by (rewrite map_length; lia).
+          replace (length rs + m - length rs)%nat with m by lia. rewrite Hl, Hm. reflexivity. }
+        destruct t; try (eexists; exact Hm2). discriminate G.
+      * split; [exact Hc|]. rewrite Hl. destruct (Hpre (length rs)) as [m Hm]. exists m. rewrite <- Hm.
+        rewrite firstn_all2 by (rewrite map_length; lia). reflexivity.
+    + split; [exact Hc|]. rewrite Hn. apply Hpre.
 Qed.
 
 (* nothing of a later file is applied once a file ended in an invalid record *)
 Theorem replay_stops_at_invalid pre rs post e :
-  replay_files (pre ++ (rs, true) :: post) e = replay_files (pre ++ [(rs, true)]) e.
+  replay_files (pre ++ (rs, FBad) :: post) e = replay_files (pre ++ [(rs, FBad)]) e.
 Proof.
   revert e. induction pre as [|[rs0 bad0] pre IH]; intros e; cbn [app replay_files].
   - destruct (replay_recs rs e) as [l [e'|]]; reflexivity.
-  - destruct (replay_recs rs0 e) as [l [e'|]]; [|reflexivity]. destruct bad0; [reflexivity|]. rewrite IH. reflexivity.
+  - destruct (replay_recs rs0 e) as [l [e'|]]; [|reflexivity]. destruct (goes_on bad0 e'); [|reflexivity]. rewrite IH. reflexivity.
+Qed.
+
+(* a record whose header was read is judged by its id before anything else: out of sequence, the whole
+   replay stops there, whatever the later files hold *)
+Theorem replay_stops_at_out_of_sequence_header rs id post e l e' :
+  replay_recs rs e = (l, Some e') -> id <> e' -> replay_files ((rs, FCut id) :: post) e = l.
+Proof.
+  intros R Hne. cbn [replay_files]. rewrite R. cbn [goes_on]. destruct (N.eqb_spec id e'); [contradiction|reflexivity].
 Qed.
 
 (* every record the scanner hands to the replay is a complete, framed, checksum-valid record found
@@ -218,7 +232,7 @@ Inductive framed (ncols : N) : bytes -> list (N * list action) -> Prop :=
 
 Lemma frecs_framed ncols b rs bad : frecs ncols b rs bad -> framed ncols b rs.
 Proof.
-  induction 1 as [b H|b H|b id acts len rs bad H Hr IH]; try apply framed_nil.
+  induction 1 as [b H|b H|b id0 H|b id acts len rs bad H Hr IH]; try apply framed_nil.
   apply parse_record_spec in H. destruct H as [blen [-> [H9 [Hle [Hb [Hid [He Hc]]]]]]].
   eapply framed_cons; eassumption.
 Qed.
